@@ -1079,3 +1079,79 @@ func (w *World) globalStateCalls() []*FuncResult {
 	}
 	return out
 }
+
+// modeIndependence (C06, congruence): the plain and the redactable rendering of an error are the
+// same walk over the same layers; they may differ only where entries are copied out (escaping and
+// enclosing) and in the final hand-over. Structural obligations <func>#modeindep: the field
+// state.redactableOutput is read only by the functions whose contracts speak about the two modes
+// (collectEntry, printEntry, formatSingleLineOutput, finishDisplay); formatErrorInternal sees the
+// mode as a parameter. Any other reader makes the collection phase mode-dependent.
+func (w *World) modeIndependence() []*FuncResult {
+	allowed := map[string]bool{"collectEntry": true, "printEntry": true, "formatSingleLineOutput": true, "finishDisplay": true, "formatErrorInternal": true}
+	var out []*FuncResult
+	var fns []*ssa.Function
+	for fn := range w.AllFuncs {
+		pkg := fn.Pkg
+		if pkg == nil && fn.Parent() != nil {
+			pkg = fn.Parent().Pkg
+		}
+		if pkg == nil || !strings.HasSuffix(pkg.Pkg.Path(), "/errbase") || !w.InModule(pkg.Pkg) || len(fn.Blocks) == 0 || fn.Synthetic != "" {
+			continue
+		}
+		if pos := w.Fset.Position(fn.Pos()); strings.HasSuffix(pos.Filename, "_test.go") || pos.Filename == "" {
+			continue
+		}
+		fns = append(fns, fn)
+	}
+	sort.Slice(fns, func(i, j int) bool { return fns[i].String() < fns[j].String() })
+	for _, fn := range fns {
+		reads := false
+		for _, b := range fn.Blocks {
+			for _, ins := range b.Instrs {
+				var st *types.Struct
+				idx := -1
+				switch x := ins.(type) {
+				case *ssa.FieldAddr:
+					if pt, ok := x.X.Type().Underlying().(*types.Pointer); ok {
+						st, _ = pt.Elem().Underlying().(*types.Struct)
+						idx = x.Field
+					}
+				case *ssa.Field:
+					st, _ = x.X.Type().Underlying().(*types.Struct)
+					idx = x.Field
+				}
+				if st != nil && idx >= 0 && idx < st.NumFields() && st.Field(idx).Name() == "redactableOutput" {
+					// only loads count (the composite literal in formatErrorInternal stores it)
+					if fa, isFA := ins.(*ssa.FieldAddr); isFA {
+						for _, ref := range *fa.Referrers() {
+							if u, isLoad := ref.(*ssa.UnOp); isLoad && u.Op == token.MUL {
+								reads = true
+							}
+						}
+					} else {
+						reads = true
+					}
+				}
+			}
+		}
+		if !reads {
+			continue
+		}
+		root := fn
+		for root.Parent() != nil {
+			root = root.Parent()
+		}
+		name := w.funcName(fn)
+		o := &Obligation{Name: name + "#modeindep", Func: name, Kind: "post", Props: []string{"C06"},
+			Text: "the rendering mode (state.redactableOutput) is consulted only where entries are copied out or handed over (structural)", Pos: w.Fset.Position(fn.Pos()).String()}
+		q := &Query{Goal: tTrue, Status: "trivial"}
+		if !allowed[root.Name()] {
+			q.Goal, q.Status = tFalse, ""
+			q.Output = "this function makes the collection phase depend on the rendering mode"
+			o.Text += " -- " + q.Output
+		}
+		o.Queries = []*Query{q}
+		out = append(out, &FuncResult{Name: name, Fn: fn, Obls: []*Obligation{o}})
+	}
+	return out
+}
